@@ -414,7 +414,7 @@ func sameSwapTarget(toks []string, i, k int) bool {
 // (e) random byte strings
 
 var soyAlphabet = []string{"{", "}", "/", "*", "\\", " ", "\n", "$", ".", "?", "[", "]", "-", "7", "0", "\"", "'", "=", "|", ",", ":",
-	"(", ")", "@", "<", "!", "+", "a", "x", "_", "é", "#", "\xff", "\xc3", "if", "css", "param", "literal", "switch", "call", "msg", "plural",
+	"(", ")", "@", "<", "!", "+", "a", "x", "_", "é", "#", "\xff", "\xc3", "٣", "१", "𝟙", "Ω", "ǅ", "中", "\u2003", "\u00a0", "\u2028", "\ufeff", "\x00", "if", "css", "param", "literal", "switch", "call", "msg", "plural",
 	"/if", "case", "\t", "\r", "e", "0x", "//", "/*", "*/", "/**", "@param"}
 
 // RandomInputs gives n seeded random strings: raw bytes (including invalid
@@ -600,7 +600,7 @@ func Concretize(hist []string) string {
 
 // AllClasses lists the character classes of SoyLexer.tla.
 var AllClasses = []string{"lb", "rb", "sl", "st", "bs", "sp", "nl", "dol", "dot", "q", "lbk", "rbk", "min", "dig", "dq", "sq",
-	"eq", "pipe", "com", "col", "lp", "rp", "at", "cmp", "ar", "let", "ulet", "oth"}
+	"eq", "pipe", "com", "col", "lp", "rp", "at", "cmp", "ar", "let", "ulet", "udig", "usp", "oth"}
 
 // ModelInputs turns the reachable control states into inputs: for every
 // state, its path followed by each class (one input per transition of the
@@ -625,13 +625,18 @@ func ModelInputs(paths []ModelPath) []Input {
 		base := Concretize(p.Hist)
 		add(p.Mode, base)
 		for _, c := range AllClasses {
-			s := base + ClassChar(c)
-			add(p.Mode, s)
-			if p.Mode == "file" {
-				add(p.Mode, s+"}")
-				add(p.Mode, hdr+s+" x}\n{/template}\n")
-			} else {
-				add(p.Mode, s+" 1")
+			for ri, ch := range ClassChars(c) {
+				s := base + ch
+				add(p.Mode, s)
+				if ri > 0 && c != "ulet" && c != "udig" && c != "usp" && c != "oth" {
+					continue // further ASCII representatives: the bare transition only
+				}
+				if p.Mode == "file" {
+					add(p.Mode, s+"}")
+					add(p.Mode, hdr+s+" x}\n{/template}\n")
+				} else {
+					add(p.Mode, s+" 1")
+				}
 			}
 		}
 		if p.Mode == "file" {
